@@ -382,6 +382,11 @@ static void gen_case(Rng& rng, std::string const& name, int nops)
     {
       if (rng.chance(30)) { wd.step += rng.pick<int64_t>({-5000, -300, 250, 4000}); } // the wall clock is stepped (NTP)
       auto r = make_reads(rng, wd, last + 1000, iv > (int64_t{1} << 45) ? 0 : static_cast<int>(rng.below(5)));
+      {
+        bool bad = false;
+        for (auto const& x : r) { if (x.wall <= 0 || x.wall > (int64_t{1} << 62)) { bad = true; } }
+        if (bad) { continue; }
+      }
       run_line(c, "idle " + reads_str(r));
       continue;
     }
@@ -408,6 +413,14 @@ static void gen_case(Rng& rng, std::string const& name, int nops)
     }
     if (rng.chance(8)) { wd.step += rng.pick<int64_t>({-2000, -100, 100, 2000}); }
     auto r = make_reads(rng, wd, tsc + 200, far ? 0 : static_cast<int>(rng.below(5)));
+    {
+      // never hand the real clock a tick difference or a wall-clock value outside the range in which its int64 nanosecond
+      // arithmetic is defined (|tsc - base| < 2^55 ticks, 0 < wall < 2^62 ns): such inputs do not occur (decades of ticks)
+      int64_t const dd = static_cast<int64_t>(tsc - b.base_tsc);
+      bool bad = dd > (int64_t{1} << 55) || dd < -(int64_t{1} << 55) || b.base_time < 0 || b.base_time > (int64_t{1} << 62);
+      for (auto const& x : r) { if (x.wall <= 0 || x.wall > (int64_t{1} << 62)) { bad = true; } }
+      if (bad) { continue; }
+    }
     run_line(c, "conv " + std::to_string(tsc) + " " + reads_str(r));
     if (static_cast<int64_t>(tsc - last) > 0) { last = tsc; }
   }
